@@ -1,5 +1,6 @@
 """C07 — input, output and transfer reach exactly the designated parties."""
 import random
+import asyncio
 
 PROPERTY = 'C07'
 ENGINE = 'SIM'
@@ -45,12 +46,24 @@ def gen_ops(rng, m, t):
             rform = rng.choice(['none', 'int', 'list', 'range'])
             S = None if sform == 'none' else (rng.randrange(m) if sform == 'int' else (subset(rng, m) if sform == 'list' else ['range', rng.randint(0, m)]))
             R = None if rform == 'none' else (rng.randrange(m) if rform == 'int' else (subset(rng, m) if rform == 'list' else ['range', rng.randint(0, m)]))
-            ops.append({'kind': 'transfer', 'S': S, 'R': R, 'seed': rng.randrange(1 << 20)})
+            op = {'kind': 'transfer', 'S': S, 'R': R, 'seed': rng.randrange(1 << 20)}
+            if rng.random() < 0.5:
+                op['late'] = [rng.randrange(m), rng.randint(1, 12)]      # one party reaches the call late: messages for it are already there
+            if isinstance(S, list) and isinstance(R, list) and S[:1] != ['range'] and R[:1] != ['range'] and rng.random() < 0.6:
+                # the same list objects were used for another transfer just before, and were updated in place by the caller
+                op['prev'] = {'kind': 'transfer', 'S': subset(rng, m), 'R': subset(rng, m), 'seed': rng.randrange(1 << 20)}
+            ops.append(op)
         elif kind == 'graph':
             arcs = [(rng.randrange(m), rng.randrange(m)) for _ in range(rng.randint(0, 2 * m))]
             arcs = list(dict.fromkeys(arcs))
             form = rng.choice(['arcs', 'dict_full', 'dict_sparse'])
-            ops.append({'kind': 'graph', 'arcs': [list(a) for a in arcs], 'form': form, 'seed': rng.randrange(1 << 20)})
+            op = {'kind': 'graph', 'arcs': [list(a) for a in arcs], 'form': form, 'seed': rng.randrange(1 << 20)}
+            if rng.random() < 0.5:
+                op['late'] = [rng.randrange(m), rng.randint(1, 12)]
+            if rng.random() < 0.5:
+                arcs0 = list(dict.fromkeys((rng.randrange(m), rng.randrange(m)) for _ in range(rng.randint(0, 2 * m))))
+                op['prev'] = {'kind': 'graph', 'arcs': [list(a) for a in arcs0], 'form': form, 'seed': rng.randrange(1 << 20)}
+            ops.append(op)
         elif kind == 'input':
             sform = rng.choice(['none', 'int', 'list'])
             S = None if sform == 'none' else (rng.randrange(m) if sform == 'int' else subset(rng, m, allow_empty=False))
@@ -121,6 +134,7 @@ def run(shard, rec):
         if not rec.wants(case):
             continue
         got = [[None] * len(ops) for _ in range(m)]
+        gotprev = [None] * m
 
         async def program(mpc, pid):
             types = {'int': mpc.SecInt(16), 'fxp': mpc.SecFxp(16, 8), 'fld': mpc.SecFld(101), 'flt': mpc.SecFlt(16), 'grp': mpc.SecGrp(G)}
@@ -143,19 +157,38 @@ def run(shard, rec):
                 return [int(a) for a in r] if isinstance(r, list) else (int(r) if not isinstance(r, float) else r)
             for k, op in enumerate(ops):
                 try:
+                    if op['kind'] in ('transfer', 'graph') and op.get('late') and op['late'][0] == pid:
+                        for _ in range(op['late'][1]):
+                            await asyncio.sleep(0)
                     if op['kind'] == 'transfer':
                         prng = random.Random(op['seed'] * 100 + pid)
-                        got[pid][k] = await mpc.transfer(payload(prng, pid, k), senders=as_arg(op['S']), receivers=as_arg(op['R']))
+                        if op.get('prev'):
+                            p0 = op['prev']
+                            Sx, Rx = list(p0['S']), list(p0['R'])
+                            gotprev[pid] = await mpc.transfer(payload(random.Random(p0['seed'] * 100 + pid), pid, k), senders=Sx, receivers=Rx)
+                            Sx[:] = op['S']
+                            Rx[:] = op['R']
+                            got[pid][k] = await mpc.transfer(payload(prng, pid, k), senders=Sx, receivers=Rx)
+                        else:
+                            got[pid][k] = await mpc.transfer(payload(prng, pid, k), senders=as_arg(op['S']), receivers=as_arg(op['R']))
                     elif op['kind'] == 'graph':
                         prng = random.Random(op['seed'] * 100 + pid)
-                        arcs = [tuple(a) for a in op['arcs']]
-                        if op['form'] == 'arcs':
-                            g = arcs
-                        else:
-                            g = {} if op['form'] == 'dict_sparse' else {i: [] for i in range(m)}
-                            for a, b in arcs:
-                                g.setdefault(a, []).append(b)
-                        got[pid][k] = await mpc.transfer(payload(prng, pid, k), sender_receivers=g)
+
+                        def fill(g, arcs_):
+                            if isinstance(g, list):
+                                g[:] = [tuple(a) for a in arcs_]
+                            else:
+                                g.clear()
+                                if op['form'] != 'dict_sparse':
+                                    g.update({i: [] for i in range(m)})
+                                for a, b in arcs_:
+                                    g.setdefault(a, []).append(b)
+                            return g
+                        g = [] if op['form'] == 'arcs' else {}
+                        if op.get('prev'):
+                            p0 = op['prev']
+                            gotprev[pid] = await mpc.transfer(payload(random.Random(p0['seed'] * 100 + pid), pid, k), sender_receivers=fill(g, p0['arcs']))
+                        got[pid][k] = await mpc.transfer(payload(prng, pid, k), sender_receivers=fill(g, op['arcs']))
                     elif op['kind'] == 'input':
                         tp = op['type']
                         mine = op['base'] + 3 * pid
@@ -227,9 +260,15 @@ def run(shard, rec):
                 pl = {}
                 for s in range(m):
                     pl[s] = payload(random.Random(op['seed'] * 100 + s), s, k)
-                for pid in range(m):
-                    g = got[pid][k]
-                    exp = model(op, m, pid, pl)
+                checks = [(op, got[pid][k], pid, pl, '') for pid in range(m)]
+                if op.get('prev'):
+                    rec.count('transfers_reusing_updated_argument_objects')
+                    pl0 = {s_: payload(random.Random(op['prev']['seed'] * 100 + s_), s_, k) for s_ in range(m)}
+                    checks += [(op['prev'], gotprev[pid], pid, pl0, ' (earlier transfer with the same argument objects)') for pid in range(m)]
+                if op.get('late'):
+                    rec.count('transfers_with_a_late_party')
+                for (op_, g, pid, pl_, note) in checks:
+                    exp = model(op_, m, pid, pl_)
                     extra = {'senders_int': isinstance(op.get('S'), int), 'receivers_proper_subset': kind == 'transfer' and set(as_set(op.get('R'), m)) != set(range(m)),
                              'dict_sparse': op.get('form') == 'dict_sparse', 'is_receiver': exp[0] == 'value'}
                     if isinstance(g, tuple) and g and g[0] == 'EXC':
@@ -237,9 +276,9 @@ def run(shard, rec):
                     elif exp[0] == 'none-or-empty':
                         rec.count('nonreceiver_results_checked')
                         if g is not None and g != []:
-                            V('nonreceiver-got-data', k, f'party {pid} is not a receiver but obtained {str(g)[:120]}', extra)
+                            V('nonreceiver-got-data', k, f'party {pid} is not a receiver{note} but obtained {str(g)[:120]}', extra)
                     elif g != exp[1]:
-                        V('wrong-delivery', k, f'party {pid} obtained {str(g)[:160]} expected {str(exp[1])[:160]}', extra)
+                        V('wrong-delivery', k, f'party {pid}{note} obtained {str(g)[:160]} expected {str(exp[1])[:160]}', extra)
             elif kind == 'input':
                 rec.count('input_ops')
                 S = as_set(op['S'], m)
